@@ -277,7 +277,7 @@ Qed.
 (* KeyReceived(k) makes exactly the class of k pending (and keeps what was pending) *)
 Lemma pending_key s k k' : pending (t_key wless k s) k' = geq k' k || pending s k'.
 Proof.
-  destruct s; simpl; unfold gkey in *.
+  destruct s; simpl.
   - destruct (m_get slices_less k counts) as [[sk c]|] eqn:G.
     + apply (get_some slices_less) in G. destruct G as [_ G]. simpl in G.
       rewrite (eqv_cong_r slices_less geq_trans k' k sk G).
@@ -314,7 +314,7 @@ Lemma poll_pending s out s' k : t_poll wless s = (out, s') ->
   pending s k = true -> pending s' k = true \/ existsb (geq k) out = true.
 Proof.
   destruct s; simpl; intro H; inversion H; subst; clear H; simpl.
-  - unfold gkey in *. intro P. apply orb_true_iff in P. destruct P as [P|P].
+  - intro P. apply orb_true_iff in P. destruct P as [P|P].
     + left. rewrite P. reflexivity.
     + right. rewrite existsb_app. apply orb_true_iff. left. exact P.
   - intro P. rewrite mem_fold_del, P, andb_true_r.
